@@ -45,6 +45,28 @@ type GenCfg struct {
 	OnePred    bool // only the first predicate
 	MaxRefs    int  // max reference keys per entity (default 2)
 	DelPercent int  // probability (%) of the deleted flag (default 20)
+	// Nulls: some property values are null. The stream parser drops null fields, so only writers that
+	// hand entities to the dataset directly (jobs, transforms) store them; see StripNulls
+	Nulls bool
+}
+
+// StripNulls returns the entities as the stream parser delivers them: top-level properties whose
+// value is null are dropped.
+func StripNulls(es []*Ent) []*Ent {
+	out := make([]*Ent, len(es))
+	for i, e := range es {
+		c := e
+		for k, v := range e.Props {
+			if v == nil {
+				if c == e {
+					c = e.Clone()
+				}
+				delete(c.Props, k)
+			}
+		}
+		out[i] = c
+	}
+	return out
 }
 
 func GenValue(t *rapid.T, p *Pool, cfg GenCfg, depth int) any {
@@ -113,7 +135,12 @@ func GenEnt(t *rapid.T, p *Pool, cfg GenCfg, ids []string) *Ent {
 	e := &Ent{ID: rapid.SampledFrom(ids).Draw(t, "id"), Props: map[string]any{}, Refs: map[string]any{}}
 	np := rapid.IntRange(0, 2).Draw(t, "np")
 	for i := 0; i < np; i++ {
-		e.Props[rapid.SampledFrom(p.Keys).Draw(t, "pk")] = GenValue(t, p, cfg, 0)
+		k := rapid.SampledFrom(p.Keys).Draw(t, "pk")
+		if cfg.Nulls && rapid.IntRange(0, 6).Draw(t, "null") == 0 {
+			e.Props[k] = nil
+			continue
+		}
+		e.Props[k] = GenValue(t, p, cfg, 0)
 	}
 	maxRefs := cfg.MaxRefs
 	if maxRefs == 0 {
